@@ -500,7 +500,8 @@ def run(ctx, crate):
         ctx.floor(rule, len(cs_), 1, cfg, "format_bar calls in WideElement::expand")
         for c in cs_:
             wsl = w.slice_args(c, [2])
-            ok = wsl.has_call(r"console::measure_text_width") and wsl.has_call(r"core::num::<impl usize>::saturating_sub") and any(w.locals[p]["ty"] == "u16" for p in wsl.params())
+            ok = wsl.has_call(r"console::measure_text_width") and wsl.has_call(r"core::num::<impl usize>::saturating_sub") and \
+                (any(w.locals[p]["ty"] == "u16" for p in wsl.params()) or any(a[0] == "field" and "width" in str(a[2]) for a in wsl.atoms))
             ctx.check(ok, rule, "columns-left", w.name, c.loc(), "wide_bar is given the terminal width minus the measured rest of the line (saturating)",
                       "wide_bar's width is not the columns left on the line", cfg)
             adds = [a for a in wsl.atoms if a[0] == "binop" and a[1] in ("Add", "AddWithOverflow", "Mul")]
